@@ -18,6 +18,11 @@ def skewFuture : Int := skewFutureSec
 def skewPast : Int := skewPastSec
 def blacklistSec : Int := blacklistDurationSec
 def cacheCap : Nat := defaultMaxSize
+/-- cookie contents are encrypted iff a block key is passed to the cookie store -/
+def cookiesEncrypted : Bool := decide (2 ≤ cookieStoreKeyArgs)
+def mainCookieName : String := Generated.mainCookieName
+def accessCookieName : String := Generated.accessTokenCookie
+def refreshCookieName : String := Generated.refreshTokenCookie
 def supportedAlgs : List String := Generated.supportedAlgs
 /-- algorithms `verifySignature` knows a hash for (an entry whose hash does not match its suffix is dropped) -/
 def hashAlgs : List String := Generated.hashAlgs.filter (fun a => !(a.endsWith "!mismatch"))
